@@ -69,13 +69,57 @@ def an_stats(torch, x):
     return out
 
 
+class Host:
+    """Three ways a user switches modes and saves / loads: on the layer itself, through train(bool),
+    and through an enclosing container (nn.Module.eval() reaches children via child.train(False);
+    a parent's load_state_dict never calls a child's load_state_dict)."""
+
+    def __init__(self, make, variant):
+        from nflows.transforms.base import CompositeTransform
+
+        self.make, self.variant = make, variant
+        self.m = make()
+        self.box = CompositeTransform([self.m]) if variant == "parent" else None
+
+    def train(self):
+        if self.variant == "direct":
+            self.m.train()
+        elif self.variant == "train_arg":
+            self.m.train(True)
+        else:
+            self.box.train()
+
+    def eval(self):
+        if self.variant == "direct":
+            self.m.eval()
+        elif self.variant == "train_arg":
+            self.m.train(False)
+        else:
+            self.box.eval()
+
+    def save_load_fresh(self, scramble=None):
+        from nflows.transforms.base import CompositeTransform
+
+        src = self.box if self.box is not None else self.m
+        sd = {k: v.clone() for k, v in src.state_dict().items()}
+        self.m = self.make()
+        if scramble:
+            scramble(self.m)
+        self.box = CompositeTransform([self.m]) if self.variant == "parent" else None
+        (self.box if self.box is not None else self.m).load_state_dict(sd)
+
+
+VARIANTS = ["direct", "train_arg", "parent"]
+
+
 def an_walk_task(task):
     import torch
 
     torch.set_num_threads(1)
     from nflows.transforms.normalization import ActNorm
 
-    walks, seed = task
+    walks, seed = task[0], task[1]
+    variant = task[2] if len(task) > 2 else "direct"
     B = an_batches(torch, seed)
     fails, steps = [], 0
     kinds_seen = set()
@@ -87,7 +131,8 @@ def an_walk_task(task):
         return an_stats(torch, B[int(p["b"])])
 
     for walk in walks:
-        m = ActNorm(3)
+        host = Host(lambda: ActNorm(3), variant)
+        m = host.m
         hist = []
         for name, args, dst in walk:
             hist.append([name] + [int(a) for a in args])
@@ -96,13 +141,12 @@ def an_walk_task(task):
             x = None
             try:
                 if name == "Train":
-                    m.train()
+                    host.train()
                 elif name == "Eval":
-                    m.eval()
+                    host.eval()
                 elif name == "SaveLoadFresh":
-                    sd = {k: v.clone() for k, v in m.state_dict().items()}
-                    m = ActNorm(3)
-                    m.load_state_dict(sd)
+                    host.save_load_fresh()
+                    m = host.m
                 elif name == "Forward":
                     x = B[int(args[0])]
                     out, lad = m.forward(x.clone())
@@ -113,7 +157,7 @@ def an_walk_task(task):
                 exc = e
 
             def fail(clause, detail):
-                fails.append({"layer": "ActNorm", "clause": clause, "detail": detail, "history": list(hist), "seed": seed})
+                fails.append({"layer": "ActNorm", "clause": clause, "detail": detail, "history": list(hist), "seed": seed, "variant": variant})
 
             if exc is not None:
                 fail("call_raises", repr(exc)[:200])
@@ -172,7 +216,8 @@ def bn_walk_task(task):
     from nflows.transforms.base import InverseNotAvailable
     from nflows.transforms.normalization import BatchNorm
 
-    walks, mom, seed, dtype_name = task
+    walks, mom, seed, dtype_name = task[:4]
+    variant = task[4] if len(task) > 4 else "direct"
     dtype = getattr(torch, dtype_name)
     tol = 2e-5 if dtype == torch.float32 else 1e-10
     B = {i + 1: torch.tensor(b, dtype=dtype) for i, b in enumerate(BN_BATCHES)}
@@ -189,8 +234,14 @@ def bn_walk_task(task):
     def vec(v):
         return torch.tensor([float(rat(q)) for q in v], dtype=torch.float64)
 
+    def scramble(mod):
+        with torch.no_grad():
+            mod.unconstrained_weight.zero_()
+            mod.bias.zero_()
+
     for walk in walks:
-        m = fresh()
+        host = Host(fresh, variant)
+        m = host.m
         hist = []
         for name, args, dst in walk:
             hist.append([name] + [int(a) for a in args])
@@ -198,16 +249,12 @@ def bn_walk_task(task):
             out = lad = exc = None
             try:
                 if name == "Train":
-                    m.train()
+                    host.train()
                 elif name == "Eval":
-                    m.eval()
+                    host.eval()
                 elif name == "SaveLoadFresh":
-                    sd = {k: v.clone() for k, v in m.state_dict().items()}
-                    m = fresh()
-                    with torch.no_grad():
-                        m.unconstrained_weight.zero_()
-                        m.bias.zero_()
-                    m.load_state_dict(sd)
+                    host.save_load_fresh(scramble)
+                    m = host.m
                 elif name == "Forward":
                     out, lad = m.forward(B[int(args[0])].clone())
                 elif name == "Inverse":
@@ -216,7 +263,7 @@ def bn_walk_task(task):
                 exc = e
 
             def fail(clause, detail):
-                fails.append({"layer": "BatchNorm", "clause": clause, "detail": detail, "history": list(hist), "seed": seed, "momentum": [mom.numerator, mom.denominator], "dtype": dtype_name})
+                fails.append({"layer": "BatchNorm", "clause": clause, "detail": detail, "history": list(hist), "seed": seed, "momentum": [mom.numerator, mom.denominator], "dtype": dtype_name, "variant": variant})
 
             res = dst["res"]
             nfail = len(fails)
@@ -273,7 +320,7 @@ def main(run, replay=None):
         c = replay["case"]
         # re-run the recorded history alone through the lock-step driver
         walks = _history_walk(c)
-        out = an_walk_task((walks, c["seed"])) if c["layer"] == "ActNorm" else bn_walk_task((walks, Fraction(*c["momentum"]), c["seed"], c.get("dtype", "float32")))
+        out = an_walk_task((walks, c["seed"], c.get("variant", "direct"))) if c["layer"] == "ActNorm" else bn_walk_task((walks, Fraction(*c["momentum"]), c["seed"], c.get("dtype", "float32"), c.get("variant", "direct")))
         for f in out["fails"]:
             run.violation({"layer": f["layer"], "clause": f["clause"]}, "replayed: " + f["detail"], c)
         return
@@ -291,7 +338,8 @@ def main(run, replay=None):
     tasks = []
     for seed in range(6 if thorough else 2):
         for ch in chunks(walks, 4):
-            tasks.append((ch, run.seed * 100 + seed))
+            for variant in VARIANTS:
+                tasks.append((ch, run.seed * 100 + seed, variant))
     fails = []
     if True:
         for out in pmap(an_walk_task, tasks, nproc):
@@ -314,7 +362,7 @@ def main(run, replay=None):
         for e in g.edges:
             if e[2] in ("Forward", "Inverse", "SaveLoadFresh"):
                 run.nontrivial.add((name,) + e)
-        tasks = [(ch, mom, run.seed, dt) for dt in (["float32", "float64"] if thorough else ["float32"]) for ch in chunks(walks, nproc)]
+        tasks = [(ch, mom, run.seed, dt, variant) for dt in (["float32", "float64"] if thorough else ["float32"]) for variant in VARIANTS for ch in chunks(walks, 6)]
         bfails = []
         if True:
             for out in pmap(bn_walk_task, tasks, nproc):
@@ -337,12 +385,12 @@ def main(run, replay=None):
         run.sample({"layer": "BatchNorm", "momentum": str(mom), "walk_prefix": [[n, list(a), {"rm": [str(rat(q)) for q in d["rm"]], "rv": [str(rat(q)) for q in d["rv"]]}] for n, a, d in w0]})
     seen = set()
     for f in fails:
-        key = (f["layer"], f["clause"], tuple(map(tuple, f["history"])))
+        key = (f["layer"], f["clause"], f.get("variant"), tuple(map(tuple, f["history"])))
         if key in seen:
             continue
         seen.add(key)
         case = {k: f[k] for k in f if k not in ("detail",)}
-        run.violation({"layer": f["layer"], "clause": f["clause"]}, "%s %s after %s: %s" % (f["layer"], f["clause"], f["history"][-6:], f["detail"]), case)
+        run.violation({"layer": f["layer"], "clause": f["clause"]}, "%s (%s mode switching) %s after %s: %s" % (f["layer"], f.get("variant"), f["clause"], f["history"][-6:], f["detail"]), case)
     run.traces = 0
     run.exhaustive = True
     run.extra["lockstep_steps"] = run.evaluations
